@@ -455,3 +455,18 @@ def fairness():
     t.append(T('fair_loop_branch', [OP('conde', [('loop', [EQ(q, P(0))])], EQ(q, P(1)))], 'covers', 6))
     t.append(T('fair_nested', [OP('conde', OP('conde', REL('never'), [REL('always'), EQ(q, P(0))]), EQ(q, P(1)))], 'covers', 6))
     return t
+
+
+def determinism():
+    """C09: programs whose constraint / domain stores hold several entries while they are iterated."""
+    t = []
+    H = dict(hash_orders=2)
+    t.append(T('det_fd_two_constraints', [FRESH(['x', 'y', 'z'], EQ(q, L(x, y, z)), INFDR(L(x, y, z), 0, 2), REL('ltefd', x, y), REL('diseqfd', y, z), REL('ltefd', z, P(0)))], 'multiset', 40, **H))
+    t.append(T('det_fd_plus_lte', [FRESH(['x', 'y'], EQ(q, L(x, y)), INFDR(L(x, y), -1, 2), REL('plusfd', x, y, P(0)), REL('ltefd', x, y), REL('diseqfd', x, P(1)))], 'multiset', 40, **H))
+    t.append(T('det_fd_hidden', [FRESH(['x', 'y', 'z'], EQ(q, x), INFDR(L(x, y, z), 0, 2), REL('ltfd', y, x), REL('diseqfd', z, x))], 'multiset', 40, **H))
+    t.append(T('det_diseq_three', [FRESH(['x', 'y'], EQ(q, L(x, y)), NE(x, P(0)), NE(y, P(1)), NE(L(x, y), L(P(1), P(0))), OP('conde', EQ(x, P(1)), EQ(y, P(0))))], 'multiset', 40, **H))
+    t.append(T('det_distinct', [FRESH(['x', 'y', 'z'], EQ(q, L(x, y, z)), INFDR(L(x, y, z), 0, 2), REL('distinctfd', L(x, y, z)), REL('ltefd', x, P(0)))], 'multiset', 40, **H))
+    t.append(T('det_clpz_store', [FRESH(['x', 'y', 'z'], EQ(q, L(x, y, z)), REL('plusz', x, y, z), REL('timesz', x, P(0), y), NE(z, P(1)), EQ(x, P(2)))], 'multiset', 40, **H))
+    t.append(T('det_fused_empty', [EQ(q, P(0)), EQ(q, P(1))], 'multiset', 40))
+    t.append(T('det_lazy_prefix', [OP('conde', [('loop', [EQ(q, P(0))])], EQ(q, P(1)))], 'covers', 5))
+    return t
